@@ -1,5 +1,5 @@
 """setup / selftest entry points of bin/check"""
-import os
+import os, json, copy
 
 
 def setup(drv):
@@ -13,6 +13,126 @@ def setup(drv):
     return 0
 
 
+def _first(path, pred):
+    for line in open(path):
+        r = json.loads(line)
+        if pred(r):
+            return r
+    raise drv_error("no suitable case in " + path)
+
+
+def drv_error(msg):
+    return RuntimeError(msg)
+
+
 def selftest(drv):
-    drv.log("selftest: not implemented yet")
-    return 0
+    """Binding demonstration: for each trace family take one recorded case that the specification accepts,
+    corrupt ONE logged field (or drop one hook event) and require that TLC rejects the corrupted case while it
+    still accepts the original.  Exit 0 iff every corruption is rejected."""
+    work = os.path.join(drv.RUN, "selftest")
+    os.makedirs(work, exist_ok=True)
+    bins = drv.build(("release",))
+    b = bins["release"]
+    results = []
+
+    def judge(spec, cases):
+        path = os.path.join(work, "in.ndjson")
+        with open(path, "w") as f:
+            for c in cases:
+                f.write(json.dumps(c) + "\n")
+        out, gen, dist, secs = drv.run_tlc(spec, spec + ".cfg", {"TRACE": path}, work, workers=4)
+        return {v["id"]: v["fails"] for v in drv.verdict_lines(out)}
+
+    def experiment(name, spec, original, corrupted):
+        original = copy.deepcopy(original)
+        corrupted = copy.deepcopy(corrupted)
+        original["id"], corrupted["id"] = 1, 2
+        v = judge(spec, [original, corrupted])
+        ok = v.get(1) == [] and len(v.get(2, [])) > 0
+        results.append((name, ok, v.get(1), v.get(2)))
+        drv.log("selftest %-34s original=%s corrupted=%s -> %s" % (name, v.get(1), v.get(2), "ok" if ok else "NOT REJECTED"))
+
+    # enc family
+    t = os.path.join(work, "enc.ndjson")
+    drv.generate(b, "enc", t, "quick", 1, "C01")
+    c = _first(t, lambda r: r["events"][0]["res"].get("kind") == "Ok" and len(r["input"]) >= 6 and r["eci"] < 0 and r["modes"] == 63)
+    k = copy.deepcopy(c); k["events"][0]["res"]["data"][1] ^= 1
+    experiment("enc: one data codeword changed", "Trace_Enc", c, k)
+    k = copy.deepcopy(c); k["events"][0]["res"]["size"] = "Square144"
+    experiment("enc: symbol size name changed", "Trace_Enc", c, k)
+    k = copy.deepcopy(c); k["events"][1]["res"]["bytes"][0] ^= 1
+    experiment("enc: decode_data result changed", "Trace_Enc", c, k)
+    k = copy.deepcopy(c); k["events"][0]["res"] = {"kind": "Panic", "loc": "x.rs:1", "msg": "boom"}; k["events"] = [k["events"][0], k["events"][-1]]
+    experiment("enc: outcome replaced by a panic", "Trace_Enc", c, k)
+    c2 = _first(t, lambda r: r["events"][0]["res"].get("kind") == "Ok" and r["modes"] == 63 and 230 in r["events"][0]["res"]["data"][:2])
+    k = copy.deepcopy(c2); k["modes"] = 61  # C40 disabled in the configuration
+    experiment("enc: used mode marked disabled", "Trace_Enc", c2, k)
+    # rs family
+    t = os.path.join(work, "rs.ndjson")
+    drv.generate(b, "rs", t, "quick", 1, "C03")
+    c = _first(t, lambda r: r["size"] == "Square52" and len(r.get("errs", [])) >= 2)
+    k = copy.deepcopy(c); k["sent"][-1] ^= 1
+    experiment("rs: last ecc codeword changed", "Trace_RS", c, k)
+    k = copy.deepcopy(c); k["events"][-1]["res"]["fix"] = k["events"][-1]["res"]["fix"][:-1]
+    experiment("rs: one correction dropped", "Trace_RS", c, k)
+    # place family
+    t = os.path.join(work, "place.ndjson")
+    drv.generate(b, "place", t, "quick", 1, "C07")
+    c = _first(t, lambda r: r["size"] == "Rect8x32")
+    k = copy.deepcopy(c); ce = k["events"][7]["cells"]; ce[0], ce[1] = ce[1], ce[0]
+    experiment("place: two cells of a visit swapped", "Trace_Place", c, k)
+    k = copy.deepcopy(c); del k["events"][5]
+    experiment("place: one visit event dropped", "Trace_Place", c, k)
+    # geom family
+    t = os.path.join(work, "geom.ndjson")
+    drv.generate(b, "geom", t, "quick", 1, "C08")
+    c = _first(t, lambda r: r["size"] == "Square12" and r["events"][0]["ev"] == "Render")
+    c = dict(c); c["events"] = c["events"][:12]
+    k = copy.deepcopy(c); k["events"][0]["res"]["px"][0] ^= 1
+    experiment("geom: one finder pixel changed", "Trace_Geom", c, k)
+    k = copy.deepcopy(c)
+    for e in k["events"]:
+        if e["ev"] == "Flip" and e["flips"] and e["parse"]["kind"] == "Err":
+            e["parse"] = {"kind": "Ok", "size": "Square12", "len": 12, "diff": [], "rerenderWidth": 12, "rerenderDiff": 0}
+            break
+    experiment("geom: rejected deviation marked ok", "Trace_Geom", c, k)
+    # plan family (hook events)
+    t = os.path.join(work, "plan19.ndjson")
+    drv.generate(b, "plan", t, "quick", 1, "C19")
+    c = _first(t, lambda r: len(r["events"]) >= 20)
+    k = copy.deepcopy(c); del k["events"][10]
+    experiment("plan: one hook Iterate event dropped", "Trace_Planner", c, k)
+    k = copy.deepcopy(c); k["events"][10]["alive"].append(k["events"][10]["alive"][0])
+    experiment("plan: duplicate (start,current) pair", "Trace_Planner", c, k)
+    t = os.path.join(work, "plan18.ndjson")
+    drv.generate(b, "plan", t, "quick", 1, "C18")
+    c = _first(t, lambda r: r["events"][0]["res"].get("kind") == "Some" and r["events"][1]["res"].get("kind") == "Ok"
+               and any(m != "ascii" for _, m in r["events"][0]["res"]["plan"][:-1])
+               and r["caps"][r["list"].index(r["events"][1]["res"]["size"])] > r["caps"][0])
+    k = copy.deepcopy(c); k["events"][0]["hook"]["chosen"]["cost12"] = 12
+    experiment("plan: hook cost lowered to 1 codeword", "Trace_Plan", c, k)
+    # sym family
+    t = os.path.join(work, "sym.ndjson")
+    drv.generate(b, "sym", t, "quick", 1, "C12")
+    c = _first(t, lambda r: r["stratum"] == "ops" and any(e["ev"] == "Probe" and e["res"]["kind"] == "Ok" for e in r["events"]))
+    k = copy.deepcopy(c)
+    for e in k["events"]:
+        if e["ev"] == "Probe" and e["res"]["kind"] == "Ok":
+            e["res"]["size"] = "Square144" if e["res"]["size"] != "Square144" else "Square132"
+            break
+    experiment("sym: probe picked another symbol", "Trace_Sym", c, k)
+    # path family
+    t = os.path.join(work, "path.ndjson")
+    drv.generate(b, "path", t, "quick", 1, "C17")
+    c = _first(t, lambda r: r["path"]["kind"] == "Ok" and len(r["path"]["segs"]) >= 8)
+    k = copy.deepcopy(c); del k["path"]["segs"][3]
+    experiment("path: one segment dropped", "Trace_Path", c, k)
+    # str family
+    t = os.path.join(work, "str.ndjson")
+    drv.generate(b, "str", t, "quick", 1, "C14")
+    c = _first(t, lambda r: r.get("stratum") == "random" and len(r["events"]) == 2 and r["events"][1]["res"].get("k") == "ok" and len(r["cps"]) > 3)
+    k = copy.deepcopy(c); k["events"][1]["res"]["cps"][0] += 1
+    experiment("str: decoded string changed", "Trace_Str", c, k)
+    bad = [r for r in results if not r[1]]
+    print("selftest: %d corruptions, %d rejected" % (len(results), len(results) - len(bad)))
+    return 0 if not bad else 1
